@@ -409,7 +409,8 @@ func runDecoder(name string, dec dials.Decoder) func(sel int, data []byte) textR
 			// past the syntax check: the document parsed but did not fit the type
 			msg := err.Error()
 			fit := strings.Contains(msg, "cannot unmarshal") || strings.Contains(msg, "unmarshal errors") || strings.Contains(msg, "failed to decode cue value") ||
-				strings.Contains(msg, "duration") || strings.Contains(msg, "cannot convert") || strings.Contains(msg, "incompatible types")
+				strings.Contains(msg, "duration") || strings.Contains(msg, "cannot convert") || strings.Contains(msg, "incompatible types") ||
+				strings.Contains(msg, "Can't convert") || strings.Contains(msg, "would overflow")
 			if fit {
 				labels = append(labels, "err-type-mismatch")
 			}
